@@ -3,14 +3,20 @@ module verifharness
 go 1.13
 
 require (
+	cloud.google.com/go v0.18.1-0.20180119164648-b1067c1d21b5
 	github.com/BurntSushi/toml v0.0.0-00010101000000-000000000000
 	github.com/Dieterbe/go-metrics v0.0.0-20181015090856-87383909479d
+	github.com/Shopify/sarama v1.23.0
+	github.com/aws/aws-sdk-go v1.15.54
 	github.com/golang/snappy v0.0.1
 	github.com/grafana/carbon-relay-ng v0.0.0
 	github.com/grafana/metrictank v1.0.1-0.20210114150051-52835b9a8775
+	github.com/kisielk/og-rek v0.0.0-20170405223746-ec792bc6e6aa
 	github.com/metrics20/go-metrics20 v0.0.0-20180821133656-717ed3a27bf9
 	github.com/sirupsen/logrus v1.1.2-0.20181020050904-08e90462da34
 	github.com/streadway/amqp v0.0.0-20170521212453-dfe15e360485
+	google.golang.org/genproto v0.0.0-20171212231943-a8101f21cf98
+	google.golang.org/grpc v1.2.1-0.20180119173759-b71aced4a2a1
 )
 
 replace github.com/grafana/carbon-relay-ng => /repo
